@@ -456,3 +456,11 @@ fn entry(input: proc_macro::TokenStream) -> Result<TokenStream> {
 
     Ok(ts.into_impl(ident, generics))
 }
+
+// Verification hook: with `--cfg ts_rs_verif`, the unit-test build of this crate includes a
+// driver (path in the environment variable `TS_RS_VERIF_DRIVER`) which runs the expansion
+// pipeline in-process on generated items. Never part of a normal build.
+#[cfg(all(test, ts_rs_verif))]
+mod verif_driver {
+    include!(env!("TS_RS_VERIF_DRIVER"));
+}
